@@ -50,6 +50,13 @@ func genC31(seed uint64, tier string) any {
 	sc.Net = NetCfg{SegMode: r.Intn(2), MaxSeg: []int{0, 100, 1460}[r.Intn(3)], LatMinUs: 100, LatMaxUs: 2000}
 	n := r.Range(3, 8)
 	sc.Events = append(sc.Events, c31Event{Kind: "connect"})
+	if sc.KeyMode == "auto" && r.Chance(1, 3) {
+		// a week of roughly daily connections: keys are created and dropped along the way
+		for d := 0; d < 9; d++ {
+			sc.Events = append(sc.Events, c31Event{Kind: "advance", Hours: []int{20, 23, 24, 25, 30}[r.Intn(5)]}, c31Event{Kind: "connect"})
+		}
+		return sc
+	}
 	conns := 1
 	for conns < n {
 		switch r.Pick([]int{0, 2, 2, 3, 6, 2, 1, 1}) {
@@ -69,13 +76,18 @@ func genC31(seed uint64, tier string) any {
 		case 5:
 			sc.Events = append(sc.Events, c31Event{Kind: "foreign"})
 		case 6:
-			sc.Events = append(sc.Events, c31Event{Kind: "client_max", Max: []uint16{vTLS12, vTLS13}[r.Intn(2)]})
+			sc.Events = append(sc.Events, c31Event{Kind: "client_max", Max: []uint16{vTLS12, vTLS13, vTLS11, vTLS10}[r.Intn(4)]})
 		case 7:
-			sc.Events = append(sc.Events, c31Event{Kind: "server_max", Max: []uint16{vTLS12, vTLS13}[r.Intn(2)]})
+			sc.Events = append(sc.Events, c31Event{Kind: "server_max", Max: []uint16{vTLS12, vTLS13, vTLS11, vTLS10}[r.Intn(4)]})
 		}
 		if r.Chance(3, 5) {
 			sc.Events = append(sc.Events, c31Event{Kind: "connect"})
 			conns++
+		}
+	}
+	for _, ev := range sc.Events {
+		if ev.Max != 0 && ev.Max < vTLS12 && sc.Key == "ed" {
+			sc.Key = "p256" // Ed25519 certificates cannot be used below TLS 1.2
 		}
 	}
 	if sc.Events[len(sc.Events)-1].Kind != "connect" {
@@ -107,7 +119,9 @@ func (c *simCache) Put(k string, s *tls.ClientSessionState) {
 type issuedTicket struct {
 	Bytes    []byte
 	At       time.Time // server clock when issued
+	Created  time.Time // creation time the server stamps into the ticket: issue time, or (TLS <= 1.2 re-wrap on resumption) that of the ticket it replaces
 	KeyEpoch int       // explicit/legacy: index of the key that was first in A's list
+	AutoKey  time.Time // auto mode: creation time of the automatically managed key that sealed the ticket
 	Vers     uint16
 	Suite    uint16
 	ByA      bool
@@ -174,10 +188,18 @@ func execC31(t *testing.T, scAny any, keepLog bool) *Outcome {
 			ccfg.Certificates = []tls.Certificate{c}
 		}
 		var issued []issuedTicket
-		record := func(from int, byA bool) {
+		// Model of the documented automatic key management ("rotated every day and dropped after seven
+		// days"): on every server handshake a new key is created when the newest is a day old, and keys that
+		// are seven days old are dropped at that moment. Creation times, newest first.
+		var autoKeys []time.Time
+		record := func(from int, byA bool, created time.Time) {
 			for _, st := range cache.puts[from:] {
 				v, su := tls.VerifSessionParams(st)
-				issued = append(issued, issuedTicket{Bytes: tls.VerifSessionTicket(st), At: clock(), KeyEpoch: epoch, Vers: v, Suite: su, ByA: byA})
+				it := issuedTicket{Bytes: tls.VerifSessionTicket(st), At: clock(), Created: created, KeyEpoch: epoch, Vers: v, Suite: su, ByA: byA}
+				if len(autoKeys) > 0 {
+					it.AutoKey = autoKeys[0]
+				}
+				issued = append(issued, it)
 			}
 		}
 		find := func(tk []byte) *issuedTicket {
@@ -249,7 +271,7 @@ func execC31(t *testing.T, scAny any, keepLog bool) *Outcome {
 					continue
 				}
 				ft := tls.VerifSessionTicket(tmp.puts[len(tmp.puts)-1])
-				issued = append(issued, issuedTicket{Bytes: ft, At: clock(), ByA: false})
+				issued = append(issued, issuedTicket{Bytes: ft, At: clock(), Created: clock(), ByA: false})
 				cache.cur[serverName] = tls.VerifSessionWithTicket(cur, ft)
 				tampered = true
 				o.count("fault.ticket_foreign", 1)
@@ -277,6 +299,19 @@ func execC31(t *testing.T, scAny any, keepLog bool) *Outcome {
 					o.count("fault.ticket_flip_"+ev.Reg, 1)
 				}
 			case "connect":
+				if sc.KeyMode == "auto" {
+					now := clock()
+					if len(autoKeys) == 0 || now.Sub(autoKeys[0]) >= 24*time.Hour {
+						keep := []time.Time{now}
+						for _, k := range autoKeys {
+							if now.Sub(k) < 7*24*time.Hour {
+								keep = append(keep, k)
+							}
+						}
+						autoKeys = keep
+						o.count("probe.auto_key_rotations", 1)
+					}
+				}
 				putsBefore := len(cache.puts)
 				curBefore := cache.cur[serverName]
 				var offered []byte
@@ -319,6 +354,8 @@ func execC31(t *testing.T, scAny any, keepLog bool) *Outcome {
 						o.Fail = Failf("c31.safety", "resumed from a ticket this server never issued (altered ticket accepted)", "connection %d: presented %d-byte ticket, tampered=%v", connIdx, len(presented), tampered)
 					case !it.ByA:
 						o.Fail = Failf("c31.safety", "resumed from a ticket issued by a foreign server", "connection %d", connIdx)
+					case sc.KeyMode == "auto" && !timeIn(it.AutoKey, autoKeys):
+						o.Fail = Failf("c31.safety", "resumed from a ticket sealed under an automatically rotated key that should have been dropped after seven days", "connection %d: key created %v ago, ticket issued %v ago", connIdx, clock().Sub(it.AutoKey), clock().Sub(it.At))
 					case sc.KeyMode == "explicit" && !validEpochs[it.KeyEpoch]:
 						o.Fail = Failf("c31.safety", "resumed from a ticket sealed under a rotated-out key", "connection %d: ticket key epoch %d, current epochs %v", connIdx, it.KeyEpoch, validEpochs)
 					case clock().Sub(it.At) > 7*24*time.Hour+time.Minute:
@@ -345,13 +382,20 @@ func execC31(t *testing.T, scAny any, keepLog bool) *Outcome {
 				if tampered && o.Fail == nil {
 					o.count("probe.tampered_ticket_presented", 1)
 				}
-				record(putsBefore, true)
+				created := clock()
+				if cs.DidResume && cs.Version != vTLS13 {
+					// a ticket re-issued on a TLS <= 1.2 resumption keeps the original session's creation time
+					if pit := find(offered); pit != nil {
+						created = pit.Created
+					}
+				}
+				record(putsBefore, true, created)
 				if len(cache.puts) > putsBefore {
 					tampered = false
 				}
 				prev = co
 				prevPresentedExpired = false
-				if pit := find(offered); pit != nil && pit.ByA && clock().Sub(pit.At) > 7*24*time.Hour {
+				if pit := find(offered); pit != nil && pit.ByA && clock().Sub(pit.Created) > 7*24*time.Hour {
 					prevPresentedExpired = true
 					o.count("probe.expired_ticket_presented", 1)
 				}
@@ -370,6 +414,15 @@ func execC31(t *testing.T, scAny any, keepLog bool) *Outcome {
 		o.Nontrivial = connIdx >= 2
 	})
 	return o
+}
+
+func timeIn(t time.Time, l []time.Time) bool {
+	for _, x := range l {
+		if x.Equal(t) {
+			return true
+		}
+	}
+	return false
 }
 
 func mutateTicket(tk []byte, ev c31Event, issued []issuedTicket) []byte {
